@@ -75,6 +75,11 @@ func produce(c *xs.Ctx, hist []ops.Op) (*prodRecord, *vnode.Node) {
 		for _, b := range d.AccountBlocks {
 			if b.BlockType != nom.BlockTypeContractSend {
 				rec.Gossip[h] = append(rec.Gossip[h], b)
+				if b.BlockType == nom.BlockTypeContractReceive && b.MomentumAcknowledged.Height+1 < h {
+					// a contract receive is made against the frontier of its time: one that was confirmed later than by the
+					// next momentum existed (in some pillar's pool, hence on the wire) all that time
+					rec.Held[b.Hash] = true
+				}
 			}
 		}
 	}
@@ -248,6 +253,12 @@ func c02Histories(tier string) [][]ops.Op {
 	hs = append(hs, []ops.Op{
 		M, {K: "Thold", A: 1, B: 2, V: 4}, {K: "Call", S: "fuse", A: 0, B: 1, V: 50}, M, {K: "T", A: 0, B: 3, V: 2}, M, M, {K: "Rel"}, M, M,
 	})
+	// a contract receive with descendants (token issue: the receive mints to the owner) that waits in the pools while a
+	// momentum of a pillar that has not seen it goes by: followers may hold it through that momentum, get it later, or only
+	// see it inside the momentum that finally confirms it
+	hs = append(hs, []ops.Op{
+		{K: "Call", S: "issue", A: 0, V: 1000}, M, {K: "Mforeign"}, M, M,
+	})
 	// enumerated: every sequence of d operations from the alphabet, each followed by the confirming momentums
 	alpha := []ops.Op{
 		{K: "T", A: 0, B: 1, V: 5},
@@ -306,6 +317,30 @@ func init() {
 		}
 		return "noheld"
 	}
+	// "Mforeign": the next momentum comes from a pillar whose node has the chain but none of the pooled blocks (they have not
+	// reached it yet): an empty momentum. The producer under observation inserts it like any momentum received from a peer
+	// and keeps its pool.
+	ops.Extra["Mforeign"] = func(n *vnode.Node, o ops.Op) string {
+		before := n.PoolBlocks()
+		if err := n.ProduceForeignEmptyMomentum(0); err != nil {
+			return "err:" + err.Error()
+		}
+		// a node re-derives its pool on every momentum and lets go of entries it cannot re-apply (a contract receive with
+		// descendants among them); the pillar that made such a block still has it and gossips it again
+		again := 0
+		for _, b := range before {
+			if b.BlockType == nom.BlockTypeContractSend {
+				continue
+			}
+			if n.Chain.GetFrontierAccountStore(b.Address).Identifier().Height >= b.Height {
+				continue
+			}
+			if err, pan := n.AddAccountBlocks([]*nom.AccountBlock{vnode.CloneBlock(b)}); err == nil && pan == nil {
+				again++
+			}
+		}
+		return fmt.Sprintf("m1/b0/regossiped%d", again)
+	}
 	// "Told": transfer that acknowledges the momentum before the frontier (lag between acknowledged momentum and frontier)
 	ops.Extra["Told"] = func(n *vnode.Node, o ops.Op) string {
 		f := n.Frontier()
@@ -358,7 +393,7 @@ func c02Units(tier string) [][3]int {
 	var u [][3]int
 	for hi := range c02Histories(tier) {
 		parts := 1
-		if hi < 6 {
+		if hi < 7 {
 			parts = 1
 		}
 		for p := 0; p < parts; p++ {
@@ -403,7 +438,7 @@ func runC02(c *xs.Ctx, r *xs.Result) {
 		}
 		t0 := time.Now()
 		hb := b
-		if hi < 6 && !c.Thorough() {
+		if hi < 7 && !c.Thorough() {
 			// the long scripted histories (6-7 momentums, a dozen gossipable blocks) get a smaller schedule space in the
 			// quick tier: batches of at most 2, one gossiped block, one restart, one warm-up, no re-delivery
 			hb = c02bounds{maxBatch: 2, gossipWin: 1, maxWarm: 1, maxRestart: 1, maxGossip: 1, maxRedeliv: 0}
